@@ -79,6 +79,7 @@ pub fn run(kind: &str, args: &[String]) -> i32 {
         "stream" => stream(&mut sink, &opts),
         "meta" => meta(&mut sink, &opts),
         "retrace" => retrace(&mut sink, &opts),
+        "text" => text(&mut sink, &opts),
         _ => {
             eprintln!("unknown trace kind {kind}");
             return 2;
@@ -328,6 +329,79 @@ fn retrace(sink: &mut Sink, o: &Opts) {
         let answers = three_answers(src, &qs);
         for (q, a) in qs.into_iter().zip(answers) {
             sink.emit(json!({"t": "q", "sid": sid + 1, "q": q, "got": a}));
+        }
+    }
+}
+
+fn opt_throwable_of(line: &[u8]) -> Value {
+    enc::opt_throwable(proguard::Throwable::try_parse(line).as_ref())
+}
+
+/// C07/C08/C16/C17: sessions over generated mappings: text traces, typed traces, round trips,
+/// signatures; `--focus text|typed|rt|sig|all`
+fn text(sink: &mut Sink, o: &Opts) {
+    let mut rng = Rng::new(o.seed);
+    let per_session: usize = opt_value(o, "--queries").map(|s| s.parse().unwrap()).unwrap_or(20);
+    let focus = opt_value(o, "--focus").unwrap_or_else(|| "all".into());
+    let mut sessions: Vec<Vec<u8>> = vec![vec![]];
+    for f in &o.files {
+        sessions.push(std::fs::read(f).expect("corpus file"));
+    }
+    let cfg = gen::MapCfg { max_classes: 4, max_members: 6, wild: false, noise: true };
+    for _ in 0..o.n {
+        sessions.push(gen::mapping(&mut rng, &cfg));
+    }
+    for (sid, src) in sessions.iter().enumerate() {
+        sink.emit(json!({"t": "load", "sid": sid + 1, "src": enc::bytes(src)}));
+    }
+    for (sid, src) in sessions.iter().enumerate() {
+        let uni = gen::universe(src);
+        for _ in 0..per_session {
+            let kind = match focus.as_str() {
+                "text" => 0,
+                "typed" => 1,
+                "rt" => 2,
+                "sig" => 3,
+                _ => rng.below(4),
+            };
+            match kind {
+                0 => {
+                    let t = gen::trace_text(&mut rng, &uni);
+                    let lines: Vec<Value> = t
+                        .lines()
+                        .map(|l| {
+                            let cause = match l.strip_prefix("Caused by: ") {
+                                Some(rest) => opt_throwable_of(rest.as_bytes()),
+                                None => json!([]),
+                            };
+                            let frame = match proguard::StackFrame::try_parse(l.as_bytes()) {
+                                None => json!([]),
+                                Some(f) => json!([enc::frame(&f)]),
+                            };
+                            json!({"thr": opt_throwable_of(l.as_bytes()), "frame": frame, "cause": cause})
+                        })
+                        .collect();
+                    let out = crate::traces::remap_text(src, &t);
+                    sink.emit(json!({"t": "text", "sid": sid + 1, "text": enc::s(&t), "lines": lines, "out": out}));
+                }
+                1 => {
+                    let canonical = rng.chance(1, 2);
+                    let levels = gen::typed_levels(&mut rng, &uni, canonical);
+                    let out = crate::traces::remap_typed(src, &levels);
+                    sink.emit(json!({"t": "typed", "sid": sid + 1, "levels": levels, "out": out}));
+                }
+                2 => {
+                    let levels = gen::typed_levels(&mut rng, &uni, true);
+                    let l2 = levels.clone();
+                    let got = guarded(move || crate::traces::roundtrip(&l2)).unwrap_or_else(|p| json!({"panic": p}));
+                    sink.emit(json!({"t": "rt", "sid": sid + 1, "levels": levels, "got": got}));
+                }
+                _ => {
+                    let sig = gen::descriptor(&mut rng, &uni);
+                    let out = crate::traces::signature(src, &sig);
+                    sink.emit(json!({"t": "sig", "sid": sid + 1, "sig": enc::s(&sig), "out": out}));
+                }
+            }
         }
     }
 }
